@@ -117,7 +117,13 @@ impl Property for C06 {
     fn run(&self, ctx: &mut Ctx) -> Result<(), Violation> {
         let p = shamir_big::p();
         let ts: Vec<u32> = if ctx.thorough { vec![1, 2, 2, 3, 3, 4, 5, 8, 13, 32, 64, 65, 128, 600] } else { vec![1, 2, 2, 3, 3, 4, 5, 8, 13, 32, 64] };
-        let t = *ctx.ch.pick(&ts) as usize;
+        let mut t = *ctx.ch.pick(&ts) as usize;
+        if !ctx.thorough && ctx.ch.chance(1, 80) {
+            t = 260; // thresholds that do not fit one byte
+        }
+        if t > 256 {
+            ctx.stats.probe("threshold_over_256");
+        }
         let k = if t > 100 { 1 } else { *ctx.ch.pick(&[0usize, 1, 1, 1, 2, 2, 3, 6, 16]) };
         let k = if t >= 32 { k.min(2) } else { k };
         let mut secret_vals: Vec<BigUint> = Vec::new();
